@@ -178,7 +178,10 @@ class Check:
             self.samples.append(obj)
 
     def add(self, key, n=1):
-        self.extra[key] = self.extra.get(key, 0) + n
+        if isinstance(n, (int, float)) and not isinstance(n, bool):
+            self.extra[key] = self.extra.get(key, 0) + n
+        else:
+            self.extra[key] = n
 
     # -- verdicts
     def report(self, key, replay_obj, msg='', n=1):
@@ -188,14 +191,14 @@ class Check:
             self.known_hits[key] += n
             self.known_text[key] = k[1]
             return False
-        if len(self.violations) < 25:
+        if sum(1 for v in self.violations if v[0] == key) < 3:
             h = hashlib.md5((key + json.dumps(replay_obj, sort_keys=True, default=str)).encode()).hexdigest()[:12]
             path = os.path.join(self.replay_dir, '%s-%s.json' % (re.sub(r'[^\w.-]+', '_', key)[:60], h))
             with open(path, 'w') as f:
                 json.dump({'property': self.prop, 'key': key, 'msg': msg, 'seed': self.seed, 'tier': self.tier, 'case': replay_obj}, f, indent=1, default=str)
             self.violations.append((key, path, msg))
         else:
-            self.violations.append((key, self.violations[-1][1], msg))
+            self.violations.append((key, [v[1] for v in self.violations if v[0] == key][0], msg))
         return True
 
     def inconc(self, why):
